@@ -282,7 +282,10 @@ def mkCore (o : Oracle) : Core UInt64 XP String where
       | _ => some ("ORACLE-MISS:init_" ++ toString p.1))
   inv p a b := o.xy ["inv", toString p.1, u64Hex a, u64Hex b]
   fwd p a b := o.xy ["fwd", toString p.1, u64Hex a, u64Hex b]
-  dt i j a b z := o.xyz ["dt", toString i, toString j, u64Hex a, u64Hex b, u64Hex z]
+  dt i j a b z :=
+    match o.xyz ["dt", toString i, toString j, u64Hex a, u64Hex b, u64Hex z] with
+    | .ok v => .ok v
+    | .error m => if m.startsWith "panic:" then .error (.panic .index) else .error (.err m)
   axisErr := "AXIS"
 
 structure SRRec where
